@@ -123,7 +123,7 @@ impl<'a> WireFormat<'a> for IPSECKEY<'a> {
     }
 
     fn len(&self) -> usize {
-        5 + match &self.gateway {
+        3 + match &self.gateway {
             Gateway::None => 0,
             Gateway::IPv4(_) => 4,
             Gateway::IPv6(_) => 16,
